@@ -42,7 +42,9 @@ SAN_ENV = {
 class Shim:
     def __init__(self, config="san", repo=None, path=None, wrapper=None, env=None):
         self.config = config
-        self.path = path or build.build(config, repo)
+        # VERIF_SHIM_OVERRIDE: run a specially built shim (e.g. the gcov-instrumented one of tools/coverage.sh) in place of every
+        # vshim-based configuration; used for measuring what the workloads reach, never by a registered check
+        self.path = path or os.environ.get("VERIF_SHIM_OVERRIDE") or build.build(config, repo)
         self.wrapper = list(wrapper or [])
         self.env = dict(os.environ); self.env.update(SAN_ENV)
         if env: self.env.update(env)
